@@ -14,7 +14,10 @@ from core import quiet
 
 quiet()
 MODULE = "SynRBLModel.Properties.C05"
-VALID = ["C>>C", "CC>>CC", "CCO>>CC=O", "[CH4:1]>>[CH4:1]", "CC(=O)C>>CC(O)C", "[Na+].[Cl-]>>[Na+].[Cl-]", "CCCl>>CC"]
+VALID = ["C>>C", "CC>>CC", "CCO>>CC=O", "[CH4:1]>>[CH4:1]", "CC(=O)C>>CC(O)C", "[Na+].[Cl-]>>[Na+].[Cl-]", "CCCl>>CC",
+         # rows that reach the curation stage (reductions / oxidations of several functional groups): a failure there must not
+         # take the other rows of the batch with it
+         "CC#N>>CCN", "CC(=O)OC>>CCO.CO", "CSC>>CS(C)=O", "CC=NC>>CCNC", "CC(=O)O>>CCO"]
 MALFORMED = ["xx>>C", "C>>xx(", "CC", "A>B>C", "C>>C>>C", ">>", "", "C>C", None, float("nan"), 12,
              # syntactically fine but rejected by sanitisation (valence, kekulisation), on either side
              "CC(C)(C)(C)(C)C>>CCO", "CCO>>CC(C)(C)(C)(C)C", "c1cccc1>>CCO", "C>>c1cccc1", "CN(C)(C)(C)C>>C", "O=C=1>>C"]
@@ -187,6 +190,33 @@ def dataset_case(ctx, rows, batch_size, tmp):
         statement(ctx, srows, out, err, form)
 
 
+def ragged_csv_case(ctx, tmp):
+    """a CSV source whose records do not all have as many fields as the header (a missing trailing free-text field, an
+    unquoted comma in a comment): every record is still one input row"""
+    from synrbl import Balancer
+    from synrbl.SynUtils.batching import Dataset
+
+    lines = [
+        ("C>>C", ["t0", "plain"]),
+        ("CCO>>CC=O", ["t1"]),  # trailing field missing
+        ("CC>>CC", ["t2", "a", "comment with, a comma"]),  # one field too many
+        ("xx>>C", []),  # only the reaction
+        ("CC(=O)C>>CC(O)C", ["t4", "last"]),
+    ]
+    path = os.path.join(tmp, "ragged.csv")
+    with open(path, "w", newline="") as f:
+        f.write("reaction,tag,comment\n")
+        for rx, rest in lines:
+            f.write(",".join([rx] + rest) + "\n")
+    rows = [rx for rx, _ in lines]
+    for bs in (None, 2):
+        try:
+            out, err = Balancer(n_jobs=1, batch_size=bs).rebalance(Dataset(path), output_dict=True), None
+        except Exception as e:
+            out, err = None, "%s: %s" % (type(e).__name__, e)
+        statement(ctx, rows, out, err, "csv-dataset-ragged")
+
+
 def sequences(ctx, maxlen, per_len):
     rng = ctx.rng
     strs = [m for m in MALFORMED if isinstance(m, str)]
@@ -296,6 +326,7 @@ def run(ctx):
         try:
             dataset_case(ctx, ["C>>C", "xx>>C", "CC>>CC", "", "CCO>>CC=O"], 2, tmp)
             dataset_case(ctx, ["CC(C)(C)(C)(C)C>>CCO", "C>>C", "A>B>C"], None, tmp)
+            ragged_csv_case(ctx, tmp)
             cli_case(ctx, ["C>>C", "xx>>C", "CC>>CC", "CCO>>CC=O"], None, tmp)
             cli_case(ctx, ["C>>C", "CC>>CC", "", "CCO>>CC=O", "A>B>C"], 2, tmp)
             if not quick:
